@@ -336,7 +336,10 @@ pub fn check_trace(o: &SwapObs, idx: usize, out: &mut Vec<Violation>, prop: &'st
                 out.push(viol(prop, "step_stopped_short", idx, format!("exact-out step {} stopped short of its target with {} left", i, remaining)));
             }
         }
-        // protocol share and LP growth
+        // protocol share and LP growth; the configured fraction is never above the documented 25 % of the fee
+        if o.pre.protocol_fee_rate > 2_500 && i == 0 {
+            out.push(viol(prop, "protocol_fee_rate_above_cap", idx, format!("the pool trades with a protocol fee rate of {} basis points of the fee (documented maximum 2500)", o.pre.protocol_fee_rate)));
+        }
         let share = model::protocol_share(s.fee_amount, o.pre.protocol_fee_rate);
         let got_share = s.protocol_fee_after.wrapping_sub(prev_protocol);
         if got_share != share {
